@@ -37,7 +37,8 @@ for d in dirs:
     if r.returncode != 0:
         print(nm, "patch does not apply:", r.stderr[:200]); continue
     files = subprocess.run("git -C /repo diff --name-only", shell=True, capture_output=True, text=True).stdout.split()
-    res[nm] = {"files": files, "tier": tier, "checks": {}}
+    prev = res.get(nm, {}).get("checks", {})
+    res[nm] = {"files": files, "tier": tier, "checks": dict(prev)}
     try:
         for p in props:
             out = subprocess.run("./check %s --tier %s" % (p, tier), shell=True, cwd="/verif", capture_output=True, text=True, timeout=3600)
